@@ -48,6 +48,10 @@ def worlds(tier):
             w.W("cond2-EDF-symbolic-timeout", w.fixed_times(w.cond2()), w.C1, "EDF", timeout=["sym", 0, 40], split=8, weight=100, tasks=small(("C", "a", "b", "J"))),
             w.W("diamond-2cpu-EDF-enforce", w.diamond(), w.C2, "EDF", enforce_deadlines=True, split=8, weight=300),
             w.W("cond-uneven-FIFO", w.fixed_times(w.cond_uneven()), w.C2, "FIFO", split=7, weight=60),
+            w.W("cond3-EDF-symbolic-timeout", w.fixed_times(w.cond3()), w.C2, "EDF", timeout=["sym", 0, 40], split=9, weight=300, tasks=small(("C", "a", "b", "c", "J"))),
+            w.W("join-2cpu-EDF-per-task-deadlines-enforce", w.join(release=0), w.C2, "EDF", enforce_deadlines=True, split=8, weight=300,
+                tasks={"A": {"strategies": [{"rt": RT3}], "deadline": "sym"}, "B": {"strategies": [{"rt": RT3}], "deadline": "sym"}, "C": {"strategies": [{"rt": RT3}], "deadline": "sym"}}),
+            w.W("chain3-havoc-drop-skipped", w.fixed_times(w.chain(3)), w.C1, "HAVOC", split=9, drop_skipped=True, havoc=dict(hv, release_taskgraphs=True), tasks=small(("T0", "T1", "T2")), weight=300),
             w.W("fork-havoc-cancel", w.fixed_times(w.fork()), w.C2, "HAVOC", split=8, havoc=dict(hv, max_cancels=1, max_unplaced=0, future=False, first_pool_only=True),
                 tasks=small(("A", "B", "C")), weight=100),
         ]
